@@ -20,14 +20,14 @@ theorem value_gid (t : Traveler) (k : String) (hc : keyIsCurrent k = true)
   unfold Traveler.value Path.lookupDoc
   rw [doc_current t k hc, hp]
   cases h : t.cur <;>
-    simp [elemDict, Path.nilDict, Path.toDict, JV.getPath?, JV.getKey?, curId, h]
+    simp [elemDict, Path.nilDict, Path.toDict, JV.getPath?, JV.member, JV.getKey?, curId, h]
 
 theorem value_label (t : Traveler) (k : String) (hc : keyIsCurrent k = true)
     (hp : Path.jsonPathOf k = ["label"]) : t.value k = .str (curLabel t) := by
   unfold Traveler.value Path.lookupDoc
   rw [doc_current t k hc, hp]
   cases h : t.cur <;>
-    simp [elemDict, Path.nilDict, Path.toDict, JV.getPath?, JV.getKey?, curLabel, h]
+    simp [elemDict, Path.nilDict, Path.toDict, JV.getPath?, JV.member, JV.getKey?, curLabel, h]
 
 theorem str_beq (a b : String) : (JV.str a == JV.str b) = (a == b) := by
   show JV.beq _ _ = _
